@@ -146,6 +146,12 @@ def rule_writers(ctx):
         for cast in (True, False):
             ev = run(ctx, fi, bind={'cast': const(cast)})
             for p in ev.paths:
+                stale = [e for e in p.events if e.kind == 'stale']
+                if stale:
+                    ctx.violated('R3', fi, stale[0].node, 'the cells are written through the local name `%s`, bound to %s before that attribute was replaced (the widened copy of '
+                                 'cast=True): the write lands in the old, discarded array and the array keeps its previous content'
+                                 % (stale[0].b, T.show(stale[0].a)), node=stale[0].node)
+                    continue
                 stores = [e for e in p.events if e.kind in ('store_attr', 'store_sub', 'del')]
                 cells = [e for e in stores if e.kind == 'store_sub']
                 casts = [e for e in stores if e.kind == 'store_attr']
